@@ -42,6 +42,8 @@ pub struct Scope {
     pub lend: bool,
     /// the arena is created with a pacing that leaves no sleep allowance at all (min_sleep 0, sleep_factor 0)
     pub zero_sleep: bool,
+    /// track the garbage that existed when the cycle woke: it must be destructed by the end of THAT cycle (non-wrapping scopes)
+    pub exact_cycle: bool,
     /// integer metric counters are part of the canonical state
     pub metrics_canon: bool,
     /// 'allocated during the running sweep' flags are part of the canonical state
@@ -91,6 +93,7 @@ pub const BASE: Scope = Scope {
     handles: 0,
     lend: false,
     zero_sleep: false,
+    exact_cycle: false,
     metrics_canon: false,
     born_canon: false,
     natural: false,
@@ -119,6 +122,9 @@ pub fn scope(name: &str) -> Option<Scope> {
         "S3w" => Scope { name: "S3w", n: 3, r: 1, k: 1, ..BASE },
         "S3wl" => Scope { name: "S3wl", n: 3, r: 1, k: 1, copyroot: false, upgrade_ops: false, wrap: false, ..BASE },
         "S2wd" => Scope { name: "S2wd", n: 2, r: 1, k: 1, dynweak: true, ..BASE },
+        // weak look-ups that store nothing + "garbage at wake dies in that cycle"
+        "S2wx" => Scope { name: "S2wx", n: 2, r: 1, k: 1, copyroot: false, wrap: false, exact_cycle: true, ..BASE },
+        "S3wx" => Scope { name: "S3wx", n: 3, r: 1, k: 1, copyroot: false, wrap: false, exact_cycle: true, ..BASE },
         "S2w" => Scope { name: "S2w", n: 2, r: 1, k: 1, ..BASE },
         // barrier paths
         "S2b" => Scope { name: "S2b", n: 2, r: 1, k: 1, barrier: true, cells: false, ..BASE },
